@@ -97,6 +97,11 @@ type simpleRequest struct {
 	resp       *RespValue
 	hooks      []func(*simpleRequest)
 	done       chan struct{}
+
+	// cpsDone indicates the compress filter has already processed the
+	// request, it's used to skip the filter when the request is resent
+	// to another backend after a redirection.
+	cpsDone bool
 }
 
 func newSimpleRequest(v *RespValue) *simpleRequest {
